@@ -957,8 +957,8 @@ static const yytype_int16 yyrline[] =
     2264,  2275,  2318,  2334,  2354,  2364,  2363,  2372,  2386,  2387,
     2392,  2402,  2417,  2416,  2429,  2430,  2435,  2468,  2493,  2549,
     2556,  2562,  2568,  2578,  2582,  2590,  2602,  2616,  2623,  2630,
-    2655,  2667,  2679,  2691,  2706,  2718,  2733,  2776,  2797,  2832,
-    2867,  2901,  2933,  2957,  2967,  2977,  2987,  2997,  3017,  3037
+    2655,  2667,  2679,  2691,  2706,  2718,  2733,  2778,  2799,  2834,
+    2869,  2903,  2935,  2959,  2969,  2979,  2989,  2999,  3019,  3039
 };
 #endif
 
@@ -4917,7 +4917,9 @@ yyreduce:
           {
             case OBJECT_TYPE_INTEGER:
               (yyval.expression).type = EXPRESSION_TYPE_INTEGER;
-              (yyval.expression).value.integer = (yyvsp[0].expression).value.object->value.i;
+              // The value of the object is not a compile-time constant: an
+              // external variable can be redefined after compilation.
+              (yyval.expression).value.integer = YR_UNDEFINED;
               break;
             case OBJECT_TYPE_FLOAT:
               (yyval.expression).type = EXPRESSION_TYPE_FLOAT;
@@ -4947,11 +4949,11 @@ yyreduce:
 
         fail_if_error(result);
       }
-#line 4951 "libyara/grammar.c"
+#line 4953 "libyara/grammar.c"
     break;
 
   case 157: /* primary_expression: '-' primary_expression  */
-#line 2777 "libyara/grammar.y"
+#line 2779 "libyara/grammar.y"
       {
         int result = ERROR_SUCCESS;
 
@@ -4972,11 +4974,11 @@ yyreduce:
 
         fail_if_error(result);
       }
-#line 4976 "libyara/grammar.c"
+#line 4978 "libyara/grammar.c"
     break;
 
   case 158: /* primary_expression: primary_expression '+' primary_expression  */
-#line 2798 "libyara/grammar.y"
+#line 2800 "libyara/grammar.y"
       {
         int result = yr_parser_reduce_operation(
             yyscanner, "+", (yyvsp[-2].expression), (yyvsp[0].expression));
@@ -5011,11 +5013,11 @@ yyreduce:
 
         fail_if_error(result);
       }
-#line 5015 "libyara/grammar.c"
+#line 5017 "libyara/grammar.c"
     break;
 
   case 159: /* primary_expression: primary_expression '-' primary_expression  */
-#line 2833 "libyara/grammar.y"
+#line 2835 "libyara/grammar.y"
       {
         int result = yr_parser_reduce_operation(
             yyscanner, "-", (yyvsp[-2].expression), (yyvsp[0].expression));
@@ -5050,11 +5052,11 @@ yyreduce:
 
         fail_if_error(result);
       }
-#line 5054 "libyara/grammar.c"
+#line 5056 "libyara/grammar.c"
     break;
 
   case 160: /* primary_expression: primary_expression '*' primary_expression  */
-#line 2868 "libyara/grammar.y"
+#line 2870 "libyara/grammar.y"
       {
         int result = yr_parser_reduce_operation(
             yyscanner, "*", (yyvsp[-2].expression), (yyvsp[0].expression));
@@ -5088,11 +5090,11 @@ yyreduce:
 
         fail_if_error(result);
       }
-#line 5092 "libyara/grammar.c"
+#line 5094 "libyara/grammar.c"
     break;
 
   case 161: /* primary_expression: primary_expression '\\' primary_expression  */
-#line 2902 "libyara/grammar.y"
+#line 2904 "libyara/grammar.y"
       {
         int result = yr_parser_reduce_operation(
             yyscanner, "\\", (yyvsp[-2].expression), (yyvsp[0].expression));
@@ -5124,11 +5126,11 @@ yyreduce:
 
         fail_if_error(result);
       }
-#line 5128 "libyara/grammar.c"
+#line 5130 "libyara/grammar.c"
     break;
 
   case 162: /* primary_expression: primary_expression '%' primary_expression  */
-#line 2934 "libyara/grammar.y"
+#line 2936 "libyara/grammar.y"
       {
         check_type((yyvsp[-2].expression), EXPRESSION_TYPE_INTEGER, "%");
         check_type((yyvsp[0].expression), EXPRESSION_TYPE_INTEGER, "%");
@@ -5152,11 +5154,11 @@ yyreduce:
           (yyval.expression).type = EXPRESSION_TYPE_INTEGER;
         }
       }
-#line 5156 "libyara/grammar.c"
+#line 5158 "libyara/grammar.c"
     break;
 
   case 163: /* primary_expression: primary_expression '^' primary_expression  */
-#line 2958 "libyara/grammar.y"
+#line 2960 "libyara/grammar.y"
       {
         check_type((yyvsp[-2].expression), EXPRESSION_TYPE_INTEGER, "^");
         check_type((yyvsp[0].expression), EXPRESSION_TYPE_INTEGER, "^");
@@ -5166,11 +5168,11 @@ yyreduce:
         (yyval.expression).type = EXPRESSION_TYPE_INTEGER;
         (yyval.expression).value.integer = OPERATION(^, (yyvsp[-2].expression).value.integer, (yyvsp[0].expression).value.integer);
       }
-#line 5170 "libyara/grammar.c"
+#line 5172 "libyara/grammar.c"
     break;
 
   case 164: /* primary_expression: primary_expression '&' primary_expression  */
-#line 2968 "libyara/grammar.y"
+#line 2970 "libyara/grammar.y"
       {
         check_type((yyvsp[-2].expression), EXPRESSION_TYPE_INTEGER, "^");
         check_type((yyvsp[0].expression), EXPRESSION_TYPE_INTEGER, "^");
@@ -5180,11 +5182,11 @@ yyreduce:
         (yyval.expression).type = EXPRESSION_TYPE_INTEGER;
         (yyval.expression).value.integer = OPERATION(&, (yyvsp[-2].expression).value.integer, (yyvsp[0].expression).value.integer);
       }
-#line 5184 "libyara/grammar.c"
+#line 5186 "libyara/grammar.c"
     break;
 
   case 165: /* primary_expression: primary_expression '|' primary_expression  */
-#line 2978 "libyara/grammar.y"
+#line 2980 "libyara/grammar.y"
       {
         check_type((yyvsp[-2].expression), EXPRESSION_TYPE_INTEGER, "|");
         check_type((yyvsp[0].expression), EXPRESSION_TYPE_INTEGER, "|");
@@ -5194,11 +5196,11 @@ yyreduce:
         (yyval.expression).type = EXPRESSION_TYPE_INTEGER;
         (yyval.expression).value.integer = OPERATION(|, (yyvsp[-2].expression).value.integer, (yyvsp[0].expression).value.integer);
       }
-#line 5198 "libyara/grammar.c"
+#line 5200 "libyara/grammar.c"
     break;
 
   case 166: /* primary_expression: '~' primary_expression  */
-#line 2988 "libyara/grammar.y"
+#line 2990 "libyara/grammar.y"
       {
         check_type((yyvsp[0].expression), EXPRESSION_TYPE_INTEGER, "~");
 
@@ -5208,11 +5210,11 @@ yyreduce:
         (yyval.expression).value.integer = ((yyvsp[0].expression).value.integer == YR_UNDEFINED) ?
             YR_UNDEFINED : ~((yyvsp[0].expression).value.integer);
       }
-#line 5212 "libyara/grammar.c"
+#line 5214 "libyara/grammar.c"
     break;
 
   case 167: /* primary_expression: primary_expression "<<" primary_expression  */
-#line 2998 "libyara/grammar.y"
+#line 3000 "libyara/grammar.y"
       {
         int result;
 
@@ -5232,11 +5234,11 @@ yyreduce:
 
         fail_if_error(result);
       }
-#line 5236 "libyara/grammar.c"
+#line 5238 "libyara/grammar.c"
     break;
 
   case 168: /* primary_expression: primary_expression ">>" primary_expression  */
-#line 3018 "libyara/grammar.y"
+#line 3020 "libyara/grammar.y"
       {
         int result;
 
@@ -5256,19 +5258,19 @@ yyreduce:
 
         fail_if_error(result);
       }
-#line 5260 "libyara/grammar.c"
+#line 5262 "libyara/grammar.c"
     break;
 
   case 169: /* primary_expression: regexp  */
-#line 3038 "libyara/grammar.y"
+#line 3040 "libyara/grammar.y"
       {
         (yyval.expression) = (yyvsp[0].expression);
       }
-#line 5268 "libyara/grammar.c"
+#line 5270 "libyara/grammar.c"
     break;
 
 
-#line 5272 "libyara/grammar.c"
+#line 5274 "libyara/grammar.c"
 
       default: break;
     }
@@ -5492,5 +5494,5 @@ yyreturnlab:
   return yyresult;
 }
 
-#line 3043 "libyara/grammar.y"
+#line 3045 "libyara/grammar.y"
 
